@@ -408,3 +408,22 @@ Proof.
     rewrite (nth_indep _ 0 (contrib_spec ref S 0)) by (rewrite map_length, seq_length; auto).
     rewrite map_nth, seq_nth; auto.
 Qed.
+
+Example contrib3d_example :
+  let S := [[1; 5; 2]; [2; 3; 3]; [2; 3; 3]; [3; 1; 5]; [1; 4; 5]; [2; 2; 4]; [6; 0; 6]; [0; 6; 6]] in
+  let ref := [6; 6; 6] in
+  below_ref ref S /\ mutually_nondominated S /\
+  contribs3d ref S = [(7, 0%nat); (0, 2%nat); (0, 1%nat); (5, 5%nat); (1, 4%nat); (3, 3%nat); (0, 7%nat); (0, 6%nat)] /\
+  contribs_spec ref S = [7; 0; 0; 3; 1; 5; 0; 0] /\
+  contrib3d_smallest ref S 3 = [(0, 6%nat); (0, 7%nat); (0, 1%nat)] /\
+  contrib3d_largest ref S 2 = [(7, 0%nat); (5, 5%nat)].
+Proof.
+  cbv zeta. split.
+  { intros p Hp. cbn [In] in Hp. repeat (destruct Hp as [<-|Hp]; [repeat constructor; lia|]). destruct Hp. }
+  split.
+  { apply mutually_nondominated_dec_check; [|reflexivity].
+    intros p q Hp Hq. cbn [In] in Hp, Hq.
+    repeat (destruct Hp as [<-|Hp]; [repeat (destruct Hq as [<-|Hq]; [reflexivity|]); destruct Hq|]).
+    destruct Hp. }
+  repeat split; vm_compute; reflexivity.
+Qed.
